@@ -14,6 +14,7 @@
      holds05                          -> c05_holds_on on the current state and ids
      putholds05 <id> <tm> <chunk>*    -> c05_put_holds_on (the Put is not applied)
      (putf appends " | holds=" and c12_holds_on of the state before, the plan and the Put)
+     tlook get|getbytes|getfile|outputfile <id>  -> <result> | <operations performed>
      get <id>                         -> NF | F out size tm   (numbers: 0 | +<binary> | -<binary>)
      getbytes <id>                    -> NF | F data out size tm
      getfile <id>                     -> NF | F name out size tm
@@ -101,8 +102,9 @@ let handle = function
       let b = if int_of_string k < 0 then None else Some (nat_of_int (int_of_string k), fk) in
       let p = put_prog h (bytes_of_hex id) rd (z_of_int (int_of_string tm)) in
       let tr = trace_f b p !store in
-      let holds = c12_holds_on h !universe !idlist !store b (bytes_of_hex id) rd (z_of_int (int_of_string tm)) in
       let ((fs', oc), _) = run_f b p !store in
+      (* c12_holds_on = c12_post_holds_on on the post-state of this very run *)
+      let holds = c12_post_holds_on h !universe !idlist !store fs' (bytes_of_hex id) in
       store := fs';
       let kind_of = function IdxP _ -> "a" | DatP o -> ignore (path_of "d" (hex_of_bytes o)); "d" in
       let show_op = function
@@ -176,6 +178,37 @@ let handle = function
       (if finished cls then "DONE" else "RUNNING") ^ " ## " ^
       String.concat " ## " (List.map (fun cl -> String.concat " ;; " (List.map show_res cl.results)) cls)
       ^ " ## " ^ Buffer.contents trace
+  | ["tlook"; kind; id] ->
+      (* a lookup with the operations it performs (sequential semantics) *)
+      let kind_of = function IdxP _ -> "a" | DatP _ -> "d" in
+      let show_op = function
+        | OStat p -> "stat:" ^ kind_of p
+        | OOpen (p, c, t) -> "open:" ^ kind_of p ^ ":" ^ (if c then "c" else "") ^ (if t then "t" else "")
+        | ORead (p, off, n) -> Printf.sprintf "read:%s:%d:%d" (kind_of p) (int_of_nat off) (int_of_nat n)
+        | OReadAll p -> "readall:" ^ kind_of p
+        | OWrite (p, off, b) -> Printf.sprintf "write:%s:%d:%d" (kind_of p) (int_of_nat off) (List.length b)
+        | OTruncate (p, n) -> Printf.sprintf "truncate:%s:%d" (kind_of p) (int_of_nat n)
+        | OClose p -> "close:" ^ kind_of p
+        | ORemove p -> "remove:" ^ kind_of p
+        | OChtimes p -> "chtimes:" ^ kind_of p in
+      let i = bytes_of_hex id in
+      let tr p = String.concat " " (List.map show_op (trace_f None p !store)) in
+      (match kind with
+       | "get" -> show_entry (get !store i) ^ " | " ^ tr (get_prog i)
+       | "getbytes" ->
+           (match get_bytes h !store i with
+            | NotFound -> "NF"
+            | Found (d, out, size, tm) -> Printf.sprintf "F %s %s %s %s" (show_bytes d) (hex_of_bytes out) (show_z size) (show_z tm))
+           ^ " | " ^ tr (get_bytes_prog h i)
+       | "getfile" ->
+           (match get_file !store i with
+            | NotFound -> "NF"
+            | Found (p, out, size, tm) -> Printf.sprintf "F %s %s %s %s" (string_of_bytes (path_name p)) (hex_of_bytes out) (show_z size) (show_z tm))
+           ^ " | " ^ tr (get_file_prog i)
+       | "outputfile" ->
+           let (_, p) = run_seq (output_file_prog i) !store in
+           string_of_bytes (path_name p) ^ " | " ^ tr (output_file_prog i)
+       | _ -> "BAD-REQUEST")
   | ["get"; id] -> show_entry (get !store (bytes_of_hex id))
   | ["getbytes"; id] ->
       (match get_bytes h !store (bytes_of_hex id) with
